@@ -5,7 +5,10 @@
 package vref
 
 import (
+	"context"
 	"errors"
+	"fmt"
+	"io"
 	"math"
 	"reflect"
 	"unsafe"
@@ -275,7 +278,7 @@ func (g *Gen) fill(v reflect.Value, depth int) {
 }
 
 // ErrPool holds the distinct error values used for error-typed positions.
-var ErrPool = []error{errors.New("err0"), valueErr{1}, &pointerErr{"err2"}, errors.New("err3"), valueErr{4}}
+var ErrPool = []error{errors.New("err0"), valueErr{1}, &pointerErr{"err2"}, errors.New("err3"), valueErr{4}, fmt.Errorf("err5: %w", context.Canceled), io.EOF}
 
 // errors of different concrete types: == comparable, pairwise distinct
 type valueErr struct{ N int }
